@@ -179,6 +179,7 @@ def check_trace(trace_text, dump_fns=None, normal_exit=True, max_problems=5):
              "states": set(), "max_depth": 0, "call_returns_checked": 0, "static_checked": 0, "opcodes": set(),
              "truncated": False, "modules": [], "ffi": []}
     static_cache = {}
+    ret_seen = {}  # function -> {operand count at an executed `ret`: ip}
     stack = []     # active activations
     unwinding = False
     final_depth = None
@@ -282,6 +283,16 @@ def check_trace(trace_text, dump_fns=None, normal_exit=True, max_problems=5):
             mx = OPLEN_MAX.get(opc)
             if mx is not None and oplen > mx:
                 bad("operand_shape", "%s: %s at %d with %d operand(s), allows <= %d" % (a.name, OPNAMES[opc], ip, oplen, mx))
+            if opc == OP["ret"]:
+                # a function hands back a value from every `return` or from none (void): a `ret` that finds no
+                # operand in a function whose other returns carry one was reached by a wrong jump
+                rs = ret_seen.setdefault(a.name, {})
+                if oplen not in rs:
+                    rs[oplen] = ip
+                    if len(rs) == 2:
+                        (o1, i1), (o2, i2) = sorted(rs.items())
+                        bad("ret_shape", "%s: `ret` at %d executed with %d operand(s) and `ret` at %d with %d: the "
+                            "function returns a value on some paths only" % (a.name, i1, o1, i2, o2))
             stats["states"].add((opc, depth - a.entry))
             if depth > stats["max_depth"]:
                 stats["max_depth"] = depth
